@@ -76,12 +76,14 @@ public:
    /// If a long argument name was used, also search for partial matches if it
    /// is allowed.
    ///
-   /// @param[in]  key  The short and/or long argument name to check.
+   /// @param[in]  key         The short and/or long argument name to check.
+   /// @param[in]  exact_only  Set to only search for an argument with exactly
+   ///                         this key, no partial matches.
    /// @return  Pointer to the argument handler object if the argument is
    ///          defined, NULL otherwise.
    /// @since  0.15.0, 12.07.2017  (take ArgumentKey as parameter)
    /// @since  0.2, 10.04.2016
-   TypedArgBase* findArg( const ArgumentKey& key) const;
+   TypedArgBase* findArg( const ArgumentKey& key, bool exact_only = false) const;
 
    /// Specifies the line length to use when printing the usage.
    /// Used when this container is used to store te sub-group arguments.
